@@ -70,6 +70,18 @@ fn block_ranges(text: &str) -> Vec<(usize, usize)> {
     out
 }
 
+/// byte ranges of the blocks that can hold a link: paragraphs, headings, and list items (a tight item has no
+/// paragraph of its own; its text starts on the item's line)
+fn holder_ranges(text: &str) -> Vec<(usize, usize)> {
+    let mut out = vec![];
+    for (ev, range) in Parser::new_ext(text, md::options()).into_offset_iter() {
+        if let Event::Start(Tag::Paragraph | Tag::Heading { .. } | Tag::Item) = ev {
+            out.push((range.start, range.end));
+        }
+    }
+    out
+}
+
 fn reader_links(bs: &[DocumentBlock], out: &mut Vec<((usize, usize), (usize, usize))>) {
     fn inl(i: &DocumentInline, out: &mut Vec<((usize, usize), (usize, usize))>) {
         if let DocumentInline::Link(l) = i {
@@ -187,17 +199,59 @@ pub fn check_text(text: &str) -> Option<String> {
             }
         }
     }
-    // headings are reported (document symbols need ≥ 2 path elements; use references of n1 instead): the line of every
-    // block-level reference / linking block
+    // locations returned: the references to n1 / n2 name the first line of the block that holds the link
+    // (links inside quotes are reported at line 0 — finding D22 — and are left to C05)
+    let holders = holder_ranges(text);
+    let quotes: Vec<(usize, usize)> = Parser::new_ext(text, md::options()).into_offset_iter().filter_map(|(ev, r)| if let Event::Start(Tag::BlockQuote(_)) = ev { Some((r.start, r.end)) } else { None }).collect();
+    for target in ["n1", "n2"] {
+        let to_target: Vec<&Span> = spans.iter().filter(|s| md::strip_md(&s.dest) == target).collect();
+        if to_target.iter().any(|s| quotes.iter().any(|q| q.0 <= s.start && s.start < q.1)) {
+            continue;
+        }
+        let mut want: Vec<u32> = to_target.iter().filter_map(|s| holders.iter().filter(|b| b.0 <= s.start && s.start < b.1).max_by_key(|b| b.0).map(|b| lsp_pos(text, b.0).0)).collect();
+        want.sort();
+        want.dedup(); // one location per linking block
+        let locs = dump::catch(|| {
+            server.handle_references(ReferenceParams {
+                text_document_position: TextDocumentPositionParams { text_document: TextDocumentIdentifier { uri: act::uri(target) }, position: Position::new(0, 0) },
+                work_done_progress_params: Default::default(),
+                partial_result_params: Default::default(),
+                context: ReferenceContext { include_declaration: false },
+            })
+        })
+        .ok()?;
+        let mut got: Vec<u32> = locs.iter().filter(|l| act::key_of_uri(&l.uri) == "a").map(|l| l.range.start.line).collect();
+        got.sort();
+        got.dedup();
+        if got != want {
+            return Some(format!("references to {}: reported at lines {:?} of the note, the blocks holding the links start at lines {:?}", target, got, want));
+        }
+    }
+    // code actions offered at a line operate on the block covering it: "Extract section" is only offered on a
+    // heading line, the list conversions only on a line of a list
+    for line in 0..nlines {
+        let line_text = text.split('\n').nth(line as usize).unwrap_or("").trim_end_matches('\r');
+        if let Ok(actions) = act::actions_at(&server, "a", line) {
+            for (kind, _, _) in &actions {
+                let t = line_text.trim_start().trim_start_matches('>').trim_start();
+                if kind == "refactor.extract.section" && !t.starts_with('#') {
+                    return Some(format!("\"Extract section\" is offered at line {} which is not a heading line: {:?}", line, line_text));
+                }
+                if (kind == "refactor.rewrite.list.type" || kind == "refactor.rewrite.list.section") && !(t.starts_with("- ") || t == "-" || t.starts_with("1.")) {
+                    return Some(format!("a list conversion is offered at line {} which is not a line of a list: {:?}", line, line_text));
+                }
+            }
+        }
+    }
     None
 }
 
 pub fn run(ctx: &Ctx, model: &mut Model, rep: &mut Report) {
-    rep.rule = "small notes with links in headings, paragraphs, list items, quotes, emphasis, wiki links (bare, piped), block references; every (line, character) position of the text incl. one past each line end; ASCII + LF texts in the main stream, CRLF and multi-byte / astral characters in the attribution stream; correspondence: the model's inline range and line range of every link / block byte range (from the harness' own pulldown pass) vs the ranges in the real reader's output; oracle: go-to-definition and prepare-rename act exactly inside link source spans (LSP UTF-16 positions), prepare-rename range = destination span; non-trivial = text with a link; distinct by text".to_string();
+    rep.rule = "small notes with links in headings, paragraphs, list items, quotes, emphasis, wiki links (bare, piped), block references; every (line, character) position of the text incl. one past each line end; ASCII + LF texts in the main stream, CRLF and multi-byte / astral characters in the attribution stream; correspondence: the model's inline range and line range of every link / block byte range (from the harness' own pulldown pass) vs the ranges in the real reader's output; oracle: go-to-definition and prepare-rename act exactly inside link source spans (LSP UTF-16 positions), prepare-rename range = destination span; references to a note are reported at the first line of the block holding the link; \"Extract section\" only on heading lines and list conversions only on list lines; every note loaded by one of five loading modes (incl. a shift of all lines by an edit); non-trivial = text with a link; distinct by text".to_string();
     if let Some(path) = &ctx.replay {
         let v: serde_json::Value = serde_json::from_str(&std::fs::read_to_string(path).unwrap()).unwrap();
         rep.evaluations += 1;
-        if let Some(w) = check_text(v["text"].as_str().unwrap_or("")) {
+        if let Some(w) = act::with_via(act::via_from(&v["via"]), || check_text(v["text"].as_str().unwrap_or(""))) {
             rep.fail(json!({"kind": "position", "text": v["text"], "what": w}));
         }
         return;
@@ -241,12 +295,14 @@ pub fn run(ctx: &Ctx, model: &mut Model, rep: &mut Report) {
                 rep.disagree(json!({"op": "to_line_range of blocks", "text": text, "model": format!("{:?}", model_blocks), "impl": format!("{:?}", rb)}));
             }
         }
-        if let Some(w) = check_text(&text) {
+        let via = act::via_for(i as u64);
+        rep.count(&format!("loaded_via_{:?}", via));
+        if let Some(w) = act::with_via(via, || check_text(&text)) {
             if !ascii_lf && d14 {
                 rep.count("attributed_to_D14");
                 continue;
             }
-            rep.fail(json!({"kind": "position", "text": text, "what": w}));
+            rep.fail(json!({"kind": "position", "text": text, "via": format!("{:?}", via), "what": w}));
         }
     }
 }
